@@ -14,3 +14,10 @@ PROPS["C05"] = dict(
     assumptions=["Go int is 64 bit; datagrams are at most 9000 bytes"],
     level_text="Theorems for all headers, all record lists and all truncations/counts (unbounded): decode∘encode = id, exactly min(count, complete records) records, never more records than 48-byte units present; the model is tied to decoders/netflowlegacy by the regenerated read-order fact and by differential execution (spec-generated datagrams and truncations).",
 )
+
+PROPS["C03"] = dict(
+    modules=["Proofs.C03"],
+    theorems=[],
+    generators=[dict(name="C03", quick=1500, thorough=100000)],
+    harness=["impl"],
+)
